@@ -6,9 +6,10 @@ props = [json.loads(l) for l in open(os.path.join(V, 'properties.jsonl'))]
 ids = [p['id'] for p in props]
 checks, na = [], []
 pending = json.load(open(os.path.join(V, 'manifest.d', '_pending.json'))) if os.path.exists(os.path.join(V, 'manifest.d', '_pending.json')) else {}
+ready = set(open(os.path.join(V, 'manifest.d', '_ready.txt')).read().split())
 for pid in ids:
     f = os.path.join(V, 'manifest.d', pid + '.json')
-    if os.path.exists(f):
+    if os.path.exists(f) and pid in ready:
         fr = json.load(open(f))
         checks.append({
             'property_id': pid,
